@@ -1,7 +1,7 @@
 (* C01 property theorems. *)
 From Coq Require Import NArith ZArith List Bool Arith.
 From Coq Require Import Permutation Sorted.
-From OG Require Import C01.Model C01.Proofs C01.Proofs2 C01.Proofs3 C01.Proofs4.
+From OG Require Import C01.Model C01.Proofs C01.Proofs2 C01.Proofs3 C01.Proofs4 C01.Proofs5.
 Import ListNotations.
 
 (* records appended to partition (counter mod n) starting from counter 0, replayed one record per unfinished
@@ -184,6 +184,19 @@ Print Assumptions index_durable_every_crash_prefix.
 Theorem index_flush_last_refuted : recoverable (irun index_last_order [IWrite 7%N; IStep; IStep; IStep]) = false.
 Proof. exact index_last_refuted. Qed.
 Print Assumptions index_flush_last_refuted.
+
+(* record framing [type:1][len:4 big endian][payload], for ALL record types 1..2 (line protocol, Arrow), ALL payloads below
+   4 GiB and whatever follows in the file: the reader gives back exactly the record and the rest ... *)
+Theorem C01_frame_read_back : forall (typ : N) (payload rest : list N), (0 < typ)%N -> (typ < 3)%N ->
+  (N.of_nat (length payload) < 4294967296)%N -> read_frame (frame typ payload ++ rest) = Record typ payload rest.
+Proof. exact frame_read_back. Qed.
+Print Assumptions C01_frame_read_back.
+
+(* ... and EVERY strict byte prefix of a framed record (a torn append at any byte) is refused: a torn record is never applied *)
+Theorem C01_torn_record_rejected : forall (typ : N) (payload : list N) (k : nat), (N.of_nat (length payload) < 4294967296)%N ->
+  k < length (frame typ payload) -> read_frame (firstn k (frame typ payload)) = Incomplete.
+Proof. exact torn_frame_rejected. Qed.
+Print Assumptions C01_torn_record_rejected.
 
 (* a concrete framed record: every strict prefix is classified incomplete, the whole record is read back *)
 Example torn_record_rejected_example :
